@@ -78,7 +78,7 @@ theorem Inv.lookup_route {cf : Config} {ops exts c} (h : Inv cf ops exts c) {t h
         refine Or.inl ⟨n, o, r, ho, hd, ha, ?_, ?_, hod, hr.2.2.1.symm, hr.2.2.2.symm, ?_⟩
         · rw [← hr.1]; exact h3
         · rw [← hr.2.1]; exact h2
-        · rw [← hr.2.2.1, ← hr.2.2.2]; exact h4
+        · rw [← hr.2.2.1, ← hr.2.2.2]; exact h4.1
       · simp only [ha, Bool.not_false, if_true] at hr
         split at hr <;> cases hr
   · -- lCloud
